@@ -115,22 +115,39 @@ class Closure:
     def __init__(self, ev: "Evaluator", node):
         self.ev, self.node = ev, node
 
+    sa_callable = True
+
     def sa_call(self, args, kw):
         a = self.node.args
         names = [x.arg for x in a.posonlyargs + a.args]
-        if a.vararg or a.kwarg or a.kwonlyargs or len(args) > len(names):
-            raise Unsupported("call of a nested function with a non-trivial signature")
         env = dict(self.ev.env)
+        kw = dict(kw)
+        pos = list(args)
         defaults = dict(zip(names[len(names) - len(a.defaults):], a.defaults))
-        for i, n in enumerate(names):
-            if i < len(args):
-                env[n] = args[i]
+        for n in names:
+            if pos:
+                env[n] = pos.pop(0)
             elif n in kw:
-                env[n] = kw[n]
+                env[n] = kw.pop(n)
             elif n in defaults:
                 env[n] = self.ev.ev(defaults[n])
             else:
                 raise PyRaise("TypeError")
+        if a.vararg:
+            env[a.vararg.arg] = tuple(pos)
+        elif pos:
+            raise PyRaise("TypeError")
+        for k, d in zip(a.kwonlyargs, a.kw_defaults):
+            if k.arg in kw:
+                env[k.arg] = kw.pop(k.arg)
+            elif d is not None:
+                env[k.arg] = self.ev.ev(d)
+            else:
+                raise PyRaise("TypeError")
+        if a.kwarg:
+            env[a.kwarg.arg] = kw
+        elif kw:
+            raise PyRaise("TypeError")
         child = self.ev.child(env)
         if isinstance(self.node, ast.Lambda):
             return child.ev(self.node.body)
@@ -138,8 +155,8 @@ class Closure:
             raise Unsupported("nested function with nonlocal/global/yield")
         return child.run_body(self.node.body)
 
-    def __call__(self, *args):
-        return self.sa_call(list(args), {})
+    def __call__(self, *args, **kw):
+        return self.sa_call(list(args), kw)
 
 
 def _as_iterable(seq):
@@ -335,7 +352,7 @@ class Evaluator:
                 return l * r
             if isinstance(l, bool) or isinstance(r, bool) or not (isinstance(l, int) and isinstance(r, int)):
                 if not (isinstance(l, (int, bool)) and isinstance(r, (int, bool))):
-                    plain = (int, float, complex, str, bytes, bytearray, list, tuple, type(None))
+                    plain = (int, float, complex, str, bytes, bytearray, list, tuple, type(None), dict, set, frozenset)
                     if isinstance(l, plain) and isinstance(r, plain) and type(e.op) in (ast.Add, ast.Sub, ast.Mult, ast.Mod, ast.FloorDiv, ast.Div, ast.BitXor, ast.BitAnd, ast.BitOr, ast.LShift, ast.RShift, ast.Pow):
                         pyops = {ast.Add: operator.add, ast.Sub: operator.sub, ast.Mult: operator.mul, ast.Mod: operator.mod, ast.FloorDiv: operator.floordiv, ast.Div: operator.truediv, ast.BitXor: operator.xor, ast.BitAnd: operator.and_, ast.BitOr: operator.or_, ast.LShift: operator.lshift, ast.RShift: operator.rshift, ast.Pow: operator.pow}
                         if isinstance(e.op, (ast.Mult, ast.Pow, ast.LShift)) and any(isinstance(x, int) and not isinstance(x, bool) and abs(x) > 1 << 20 for x in (l, r)) and not (isinstance(l, int) and isinstance(r, int)):
@@ -429,6 +446,44 @@ class Evaluator:
                 self.env.pop(g.target.id, None)
             else:
                 self.env[g.target.id] = saved
+            return out
+        if isinstance(e, ast.ListComp):
+            # the general form: several `for` clauses, tuple targets
+            out = []
+            saved = dict(self.env)
+
+            def bind(t, item):
+                if isinstance(t, ast.Name):
+                    self.env[t.id] = item
+                elif isinstance(t, (ast.Tuple, ast.List)):
+                    if not isinstance(item, (list, tuple)) or len(item) != len(t.elts):
+                        raise PyRaise("ValueError")
+                    for tt, x in zip(t.elts, item):
+                        bind(tt, x)
+                else:
+                    raise Unsupported("comprehension target")
+
+            def rec(i):
+                if i == len(e.generators):
+                    out.append(self.ev(e.elt))
+                    return
+                g = e.generators[i]
+                seq = self.ev(g.iter)
+                if isinstance(seq, Record) and callable(seq.fields.get("__iter__")):
+                    seq = seq.fields["__iter__"]()
+                seq = _as_iterable(seq)
+                if seq is None:
+                    raise Unsupported("comprehension over a non-sequence")
+                for item in seq:
+                    bind(g.target, item)
+                    if all(self.truth(self.ev(c)) for c in g.ifs):
+                        rec(i + 1)
+
+            try:
+                rec(0)
+            finally:
+                self.env.clear()
+                self.env.update(saved)
             return out
         if isinstance(e, ast.Call):
             fn = e.func
@@ -569,6 +624,14 @@ class Evaluator:
                     return self.truth(args[0])
                 if fn.id == "len" and len(args) == 1 and isinstance(args[0], (tuple, list, str, dict, bytes, set, frozenset)):
                     return len(args[0])
+                if fn.id == "dict" and len(args) <= 1 and fn.id not in self.env:
+                    try:
+                        src_ = args[0] if args else ()
+                        if isinstance(src_, PyIter):
+                            src_ = list(src_)
+                        return dict(src_)
+                    except (TypeError, ValueError) as ex:
+                        raise PyRaise(type(ex).__name__)
                 if fn.id == "set" and len(args) <= 1 and fn.id not in self.env:
                     try:
                         return set(args[0]) if args else set()
@@ -716,6 +779,9 @@ class Evaluator:
                 val = self.ev(st.value)
                 if isinstance(cur, list) and isinstance(st.op, ast.Add) and isinstance(val, (list, tuple)):
                     cur.extend(val)
+                    continue
+                if isinstance(cur, (dict, set)) and isinstance(st.op, ast.BitOr) and isinstance(val, (dict, set, frozenset)) and isinstance(val, dict) == isinstance(cur, dict):
+                    cur.update(val)  # dict.__ior__ / set.__ior__ update the object in place: every holder of it sees the change
                     continue
                 fake = ast.BinOp(left=ast.Constant(cur), op=st.op, right=ast.Constant(val))
                 if isinstance(cur, bool) and isinstance(val, bool) and isinstance(st.op, (ast.BitAnd, ast.BitOr)):
